@@ -394,6 +394,32 @@ func genC04(m *M, budget int) {
 				m.EEncodeUnc(0)
 			}
 		}
+		// representations whose Z has every stored limb one of TWO values, 0 and w (all 15 masks of w = 1, 2^63, 2^64-1,
+		// in turn over the histories): what an OR / AND over the limbs of Z collapses to a single word
+		if m.raw {
+			ws := []uint64{1, 1 << 63, ^uint64(0)}
+			for j := 0; j < 3; j++ {
+				idx := (3*k + j) % 45
+				w, mask := ws[idx/15], 1+idx%15
+				t := new(big.Int)
+				for i := 3; i >= 0; i-- {
+					t.Lsh(t, 64)
+					if mask>>uint(i)&1 == 1 {
+						t.Or(t, new(big.Int).SetUint64(w))
+					}
+				}
+				if t.Cmp(bigP) >= 0 {
+					continue
+				}
+				l := mulmod(t, rInvP, bigP)
+				x, y := m.randPoint()
+				m.class("rep:two_valued_limbs")
+				m.ESetRaw(0, mulmod(x, l, bigP), mulmod(y, l, bigP), l)
+				m.EIsIdentity(0)
+				m.EEncode(0)
+				m.EEncodeUnc(0)
+			}
+		}
 		// extreme coordinates: the encoders must emit them and the decoders take them back
 		for i := k; i < k+2; i++ {
 			x, y, cls := m.boundaryPoint()
